@@ -12,6 +12,9 @@ class RegConcCheck(PropCheck):
     def correspond(self, tier, seed, rng):
         n = self.n_quick if tier == "quick" else self.n_thorough
         scenarios = [rc.gen_scenario(rng, self.profile) for _ in range(n)]
+        if self.profile == "chain":
+            # deterministic coverage of the first-registration window, for every kind of predecessor
+            scenarios += rc.window_sweep(rng)
         results = rc.run_many(scenarios)
         # search for a failing input (DESIGN 4.1): when the step trace no longer matches the model but
         # the property monitor has not fired, re-run the disagreeing scenario shapes under many more
